@@ -351,6 +351,30 @@ func (fc *FCtx) run() {
 			st.vars[r] = fc.zeroVal(r.Type())
 		}
 	}
+	if fi.Lit != nil {
+		// captured variables of the enclosing function are implicit in/out parameters of the literal
+		info := fi.Pkg.TypesInfo
+		seen := map[types.Object]bool{}
+		ast.Inspect(fi.Lit.Body, func(n ast.Node) bool {
+			id, ok := n.(*ast.Ident)
+			if !ok {
+				return true
+			}
+			v, ok := info.Uses[id].(*types.Var)
+			if !ok || seen[v] || v.IsField() || v.Pkg() == nil || v.Parent() == v.Pkg().Scope() {
+				return true
+			}
+			if v.Pos() >= fi.Lit.Pos() && v.Pos() <= fi.Lit.End() {
+				return true
+			}
+			seen[v] = true
+			s := fc.U.SortOf(v.Type())
+			val := Val{T: fc.U.Const("cap_"+sanitize(v.Name()), s), S: s, GoT: v.Type()}
+			st.vars[v] = val
+			st.assume(fc.U.WF(val))
+			return true
+		})
+	}
 	bodyPos := fi.Body().Lbrace + 1
 	fc.entry = st.clone()
 	// requires
